@@ -516,3 +516,55 @@ func c29ErrClass(res ca.SendBatchItemResult) string {
 	}
 	return "err_other"
 }
+
+// ---------------------------------------------------------------------------
+// Workload records shared by the C29 and C41 drivers.
+
+const (
+	c29Normal = iota
+	c29Keyless
+	c29Invalid
+	c29NoAuth
+	c29Deny
+	c29Cancelled
+	c29Expired
+)
+
+var c29KindNames = []string{"normal", "keyless", "invalid", "noauth", "deny", "cancelled", "expired"}
+
+type c29Item struct {
+	Kind    int    `json:"kind"`
+	Ch      int    `json:"ch"`
+	From    string `json:"from"`
+	No      string `json:"no"`
+	Payload string `json:"payload"`
+}
+
+type c29Batch struct {
+	Prod   int
+	N      int
+	Phase  int
+	Call   int64
+	Ret    int64
+	DoneAt int64 // stamp taken when the results became known to the harness
+	Items  []c29Item
+	Res    []ca.SendBatchItemResult
+	Err    error // SubmitLocal error (local mode)
+	fut    *ca.Future
+	Done   bool
+	Fenced bool
+	Emits  []int // router SendBatchEach emit counts (nil when SendBatch was used)
+}
+
+func c29KeyedPayload(ch int, from, no string, variant int) string {
+	return fmt.Sprintf("ch%d|%s|%s|v%d", ch, from, no, variant)
+}
+
+func c29ResKeys(res []ca.SendBatchItemResult) []string {
+	out := make([]string, len(res))
+	for i, r := range res {
+		out[i] = fmt.Sprintf("%d/%d/%d/%v", r.Result.MessageID, r.Result.MessageSeq, r.Result.Reason, r.Err)
+	}
+	return out
+}
+
